@@ -548,6 +548,7 @@ func (l *leader) changeConfig(config Config) {
 			repl.status.removed = true
 			close(repl.stopCh)
 			delete(l.repls, id)
+			l.retiring = append(l.retiring, repl)
 		}
 	}
 
